@@ -99,6 +99,7 @@ var ternaryGoExpr = map[string]func(goexpr.Expr, goexpr.Expr, goexpr.Expr) goexp
 	"SUBSTR":     goexpr.Substr,
 	"REPLACEALL": goexpr.ReplaceAll,
 	"LUA": func(script goexpr.Expr, keys goexpr.Expr, args goexpr.Expr) goexpr.Expr {
+		// (goFnExprFor makes sure that keys and args are arrays)
 		_keys := keys.(*goexpr.ArrayExpr)
 		_args := args.(*goexpr.ArrayExpr)
 		return redis.Lua(script, _keys.Items, _args.Items...)
@@ -199,21 +200,64 @@ type Query struct {
 
 // TableFor returns the table in the FROM clause of this query
 func TableFor(sql string) (string, error) {
+	if unterminatedBacktick(sql) {
+		return "", fmt.Errorf("Error parsing %v: unterminated backtick", sql)
+	}
 	parsed, err := sqlparser.Parse(sql)
 	if err != nil {
 		return "", err
 	}
-	stmt := parsed.(*sqlparser.Select)
+	stmt, ok := parsed.(*sqlparser.Select)
+	if !ok {
+		return "", fmt.Errorf("Only SELECT statements are supported: %v", sql)
+	}
+	if len(stmt.From) == 0 {
+		return "", fmt.Errorf("No FROM clause in %v", sql)
+	}
 	return strings.ToLower(nodeToString(stmt.From[0])), nil
+}
+
+// unterminatedBacktick reports whether the given SQL ends inside of a
+// backtick-quoted identifier. The tokenizer of the SQL parser never returns
+// from that (it keeps appending to its buffer until memory runs out).
+func unterminatedBacktick(sql string) bool {
+	var quote byte
+	for i := 0; i < len(sql); i++ {
+		c := sql[i]
+		switch {
+		case quote == 0:
+			if c == '\'' || c == '"' || c == '`' {
+				quote = c
+			}
+		case quote == '`':
+			if c == '`' {
+				quote = 0
+			}
+		default:
+			if c == '\\' {
+				i++
+			} else if c == quote {
+				quote = 0
+			}
+		}
+	}
+	return quote == '`'
 }
 
 // Parse parses a SQL statement and returns a corresponding *Query object.
 func Parse(sql string) (*Query, error) {
+	if unterminatedBacktick(sql) {
+		return nil, fmt.Errorf("Error parsing %v: unterminated backtick", sql)
+	}
 	parsed, err := sqlparser.Parse(sql)
 	if err != nil {
 		return nil, fmt.Errorf("Error parsing %v: %v", sql, err)
 	}
-	return parse(parsed.(*sqlparser.Select))
+	stmt, ok := parsed.(*sqlparser.Select)
+	if !ok {
+		return nil, fmt.Errorf("Only SELECT statements are supported: %v", sql)
+	}
+	return parse(stmt)
 }
 
 func parse(stmt *sqlparser.Select) (*Query, error) {
@@ -1123,7 +1167,15 @@ func goExprFor(_e sqlparser.Expr) (goexpr.Expr, error) {
 	}
 }
 
-func goFnExprFor(e *sqlparser.FuncExpr, fname string) (goexpr.Expr, error) {
+func goFnExprFor(e *sqlparser.FuncExpr, fname string) (result goexpr.Expr, err error) {
+	defer func() {
+		// the functions that construct the expressions assume well formed
+		// arguments (CONCAT() for example needs at least a delimiter)
+		if p := recover(); p != nil {
+			result = nil
+			err = fmt.Errorf("Invalid arguments to %v: %v", fname, p)
+		}
+	}()
 	alias, foundAlias := aliases[fname]
 	if foundAlias {
 		return applyAlias(e, alias)
@@ -1175,6 +1227,13 @@ func goFnExprFor(e *sqlparser.FuncExpr, fname string) (goexpr.Expr, error) {
 		p2, err := paramGoExpr(e, 2)
 		if err != nil {
 			return nil, err
+		}
+		if fname == "LUA" {
+			_, keysOk := p1.(*goexpr.ArrayExpr)
+			_, argsOk := p2.(*goexpr.ArrayExpr)
+			if !keysOk || !argsOk {
+				return nil, fmt.Errorf("LUA requires its keys and args to be given as ARRAY(...)")
+			}
 		}
 		return tfn(p0, p1, p2), nil
 	}
